@@ -12,3 +12,4 @@ pub mod adversary;
 pub mod schema_ext;
 pub mod exec_ops;
 pub mod worlds;
+pub mod builtin_redef;
